@@ -3,16 +3,27 @@
 //   open <trunc 0|1> <initial_size> <maxoff> <def|fibo|mul|muln> [n dn]
 //   write <off> <hex> | read <off> <len> | copy <off> <siz> <noff> | truncate <size> | ensure <size>
 //   addmm <off> <maxlen> <flags> | rmmm <off> | probe <off> | sync | remap | state | close
+//   limit <n>   OS-refusal injection: RLIMIT_FSIZE (soft) := n bytes, n < 0 lifts it. SIGXFSZ is ignored, so every
+//               ftruncate/fallocate/write of this process beyond n fails with EFBIG until the limit is lifted.
+//               Accepted in every state (also without an open handle / after a crash).
+//   maplimit <d> mmap-refusal injection (opt-in scripts only, see checks/C12.py): RLIMIT_AS (soft) := current address
+//               space + d bytes, d < 0 lifts it; a window that has to grow by more than d cannot be mapped (ENOMEM).
 // every answer: "<op> <RC> [payload] fsize=<state().fsize> stat=<st_size>"
-// A SIGSEGV/SIGBUS inside an operation is reported as "<op> CRASH"; the handle is abandoned until the next "open 1".
+// probe reads the first and the last byte of every page of the window it got (a window that reaches beyond the real
+// end of the file faults there).
+// A SIGSEGV/SIGABRT inside an operation is reported as "<op> CRASH", a SIGBUS (access to a mapped page beyond the end of
+// the file) as "<op> SIGBUS"; the handle is abandoned until the next "open 1".
 #include "iwcfg.h"
 #include "iwexfile.h"
 #include "iwp.h"
 #include "iwlog.h"
 #include "hcommon.h"
 #include <signal.h>
+#include <dirent.h>
 #include <setjmp.h>
 #include <sys/stat.h>
+#include <sys/resource.h>
+#include <fcntl.h>
 #include <unistd.h>
 #include <errno.h>
 
@@ -56,6 +67,17 @@ static long long statsz(void) {
   return (long long) st.st_size;
 }
 
+static long long vmsize(void) {  // no stdio: must work under a tight address-space limit
+  char b[128];
+  int fd = open("/proc/self/statm", O_RDONLY);
+  if (fd < 0) return -1;
+  ssize_t r = read(fd, b, sizeof(b) - 1);
+  close(fd);
+  if (r <= 0) return -1;
+  b[r] = 0;
+  return strtoll(b, 0, 10) * (long long) sysconf(_SC_PAGESIZE);
+}
+
 static void tail(void) {
   long long fs = -1;
   if (is_open && !poisoned) {
@@ -78,6 +100,7 @@ int main(int argc, char **argv) {
   sigaction(SIGSEGV, &sa, 0);
   sigaction(SIGBUS, &sa, 0);
   sigaction(SIGABRT, &sa, 0);
+  signal(SIGXFSZ, SIG_IGN);
   FILE *devnull = fopen("/dev/null", "w");
   static IWLOG_DEFAULT_OPTS lo;
   if (devnull) {
@@ -88,6 +111,43 @@ int main(int argc, char **argv) {
     int n = toks(line, tv, 8);
     if (n == 0) { printf("\n"); continue; }
     const char *op = tv[0];
+    if (!strcmp(op, "limit") && n >= 2) {
+      long long v = strtoll(tv[1], 0, 10);
+      struct rlimit rl;
+      int rci = getrlimit(RLIMIT_FSIZE, &rl);
+      if (!rci) {
+        rl.rlim_cur = v < 0 ? rl.rlim_max : (rlim_t) v;
+        rci = setrlimit(RLIMIT_FSIZE, &rl);
+      }
+      printf("limit %s", rci ? "ERR" : "OK");
+      tail();
+      continue;
+    }
+    if (!strcmp(op, "nfd")) { // open descriptors of this process (a failed open must not keep one)
+      int cnt = 0;
+      DIR *d = opendir("/proc/self/fd");
+      if (d) {
+        while (readdir(d)) ++cnt;
+        closedir(d);
+        cnt -= 3; // ".", ".." and the directory stream itself
+      }
+      printf("nfd %d\n", cnt);
+      continue;
+    }
+    if (!strcmp(op, "maplimit") && n >= 2) {
+      long long v = strtoll(tv[1], 0, 10), cur = vmsize();
+      struct rlimit rl;
+      int rci = getrlimit(RLIMIT_AS, &rl);
+      if (!rci && (v < 0 || cur > 0)) {
+        rl.rlim_cur = v < 0 ? rl.rlim_max : (rlim_t) (cur + v);
+        rci = setrlimit(RLIMIT_AS, &rl);
+      } else {
+        rci = -1;
+      }
+      printf("maplimit %s", rci ? "ERR" : "OK");
+      tail();
+      continue;
+    }
     if (!strcmp(op, "open") && n >= 5) {
       int trunc = atoi(tv[1]);
       if (is_open && !poisoned) { f.close(&f); }
@@ -124,7 +184,7 @@ int main(int argc, char **argv) {
     int sig = sigsetjmp(jb, 1);
     if (sig) {
       poisoned = 1;
-      printf("%s CRASH\n", op);
+      printf("%s %s\n", op, sig == SIGBUS ? "SIGBUS" : "CRASH");
       continue;
     }
     if (!strcmp(op, "write") && n >= 3) {
@@ -166,6 +226,15 @@ int main(int argc, char **argv) {
     } else if (!strcmp(op, "probe") && n >= 2) {
       uint8_t *mm = 0; size_t sp = 0;
       iwrc rc = f.probe_mmap(&f, (off_t) strtoll(tv[1], 0, 10), &mm, &sp);
+      if (!rc && mm && sp) {  // the window must be readable over its whole reported length
+        size_t ps = iwp_page_size();
+        volatile uint8_t sink = 0;
+        for (size_t i = 0; i < sp; i += ps) {
+          sink ^= ((volatile uint8_t*) mm)[i];
+          sink ^= ((volatile uint8_t*) mm)[(i + ps <= sp ? i + ps : sp) - 1];
+        }
+        (void) sink;
+      }
       armed = 0;
       printf("probe %s %zu", rcname(rc), sp);
     } else if (!strcmp(op, "sync")) {
